@@ -1249,8 +1249,8 @@ def check_C14(ctx):
         if r.random() < 0.3: c["g_begin"] = gen._fmt(layout, *r.choice(ds))
         cases.append(c); metas.append((layout, items)); ctx.tally("layout_sweep_tokens", len(toks))
         ctx.nontriv(logb + layout.encode())
-    # date formats whose text begins with a blank (a leading space in the layout, Go's space-padded day "_2"): the log is readable (the heading has no such
-    # blank: a space of the layout also matches nothing) but print writes the blank, and a line that begins with a blank is no heading
+    # date formats whose text begins with a blank: Go's space-padded day "_2" reads the heading `5 Jan 2021` but print writes ` 5 Jan 2021`, and a line
+    # that begins with a blank is no heading (known finding KF4); a literal leading space in the layout reads no heading at all (an error, nothing to print)
     for k in range(ctx.scale(6, 40)):
         layout = r.choice([" 2006/01/02", "_2/01/2006", "_2 Jan 2006", " 02.01.2006"])
         ds = [(2021, r.randint(1, 12), r.randint(1, 9)) for _ in range(r.randint(2, 3))]
